@@ -285,10 +285,13 @@ INLINE_CONFIGS = {
     "quick": [("matcher", "Alpha6", 3, "{1, 2, 3, 7}", "KindsPlain", "StylesBoth", "FollTwo", "CutsNone", "TRUE", "NoLead"),
               ("dict-and-cuts", "AlphaSmall", 1, "{1, 3}", "KindsAll", "StylesBoth", "FollAll", "CutsAll", "FALSE", "NoLead"),
               # the inline image in the 2nd / 3rd stream of a /Contents array, text after it
-              ("later-streams", "AlphaSmall", 1, "{1, 3, 4096}", "KindsTwo", "StylesBoth", "FollAll", "CutsFew", "TRUE", "LeadsAll")],
+              ("later-streams", "AlphaSmall", 1, "{1, 3, 4096}", "KindsTwo", "StylesBoth", "FollAll", "CutsFew", "TRUE", "LeadsAll"),
+              # every spelling of the ASCII85 filter x ASCII85 text holding EI + white space / EI at a line break
+              ("a85-text", "AlphaA85Text", 3, "{2, 4096}", "KindsA85", "StylesEol", "FollTwo", "CutsNone", "FALSE", "NoLead")],
     "thorough": [("matcher", "Alpha6", 5, "{1, 2, 3, 7}", "KindsPlain", "StylesBoth", "FollTwo", "CutsNone", "TRUE", "NoLead"),
                  ("dict-and-cuts", "Alpha6", 2, "{1, 2, 3, 5}", "KindsAll", "StylesBoth", "FollAll", "CutsAll", "FALSE", "NoLead"),
-                 ("later-streams", "Alpha6", 2, "{1, 3, 4096}", "KindsTwo", "StylesBoth", "FollAll", "CutsAll", "TRUE", "LeadsAll")],
+                 ("later-streams", "Alpha6", 2, "{1, 3, 4096}", "KindsTwo", "StylesBoth", "FollAll", "CutsAll", "TRUE", "LeadsAll"),
+                 ("a85-text", "AlphaA85Text", 4, "{1, 2, 7, 4096}", "KindsA85", "StylesEol", "FollAll", "CutsNone", "FALSE", "NoLead")],
 }
 SPACES = b"\t\n\x0b\x0c\r "
 
@@ -451,7 +454,7 @@ def direction_a_inline(ck, dev):
         wrapper = os.path.join(ck.tmp, mod + ".tla")
         with open(wrapper, "w") as f:
             f.write("---- MODULE %s ----\nEXTENDS MC_InlineScan\nTheDevs == {{}%s}\nAlphaSmall == {69, 10, 13}\nKindsTwo == {\"none\", \"A85\"}\n"
-                    "CutsFew == {\"none\", \"afterIDws\", \"afterEIws\"}\n====\n"
+                    "CutsFew == {\"none\", \"afterIDws\", \"afterEIws\"}\nStylesEol == {\"eol\"}\n====\n"
                     % (mod, (", " + tla_set(dev)) if dev else ""))
         cfg = write_cfg(os.path.join(ck.tmp, mod + ".cfg"),
                         constants={"Alphabet": "<- " + alpha, "MaxLen": maxlen, "BufSizes": bufs, "DictKinds": "<- " + kinds,
@@ -540,13 +543,14 @@ def inline_documents(ck, dev, doc_cases):
 def inline_teeth(ck):
     found = {}
     for d, cuts in (("NoRestart", "CutsNone"), ("DollarNewline", "CutsNone"), ("CRLFUnit", "CutsNone"), ("EOFNotDelim", "CutsNone"),
-                    ("SeekOtherStream", "CutsAll"), ("CumulativeBufpos", "CutsNone")):
+                    ("SeekOtherStream", "CutsAll"), ("CumulativeBufpos", "CutsNone"), ("BareNameNoFilter", "CutsNone")):
         mod = "TeethI_%s" % d
         wrapper = os.path.join(ck.tmp, mod + ".tla")
         with open(wrapper, "w") as f:
             f.write('---- MODULE %s ----\nEXTENDS MC_InlineScan\nTheDevs == {{"%s"}}\n====\n' % (mod, d))
         cfg = write_cfg(os.path.join(ck.tmp, mod + ".cfg"),
-                        constants={"Alphabet": "<- Alpha6", "MaxLen": 2, "BufSizes": "{2}", "DictKinds": "<- KindsPlain", "Styles": "<- StylesBoth",
+                        constants={"Alphabet": "<- AlphaA85Text" if d == "BareNameNoFilter" else "<- Alpha6", "MaxLen": 3 if d == "BareNameNoFilter" else 2,
+                                   "BufSizes": "{2}", "DictKinds": "<- KindsA85" if d == "BareNameNoFilter" else "<- KindsPlain", "Styles": "<- StylesBoth",
                                    "Followers": "<- FollTwo", "Cuts": "<- " + cuts, "DevChoices": "<- TheDevs", "FastDict": "TRUE",
                                    "Leads": "<- LeadsAll" if d == "CumulativeBufpos" else "<- NoLead"},
                         invariants=["P_DataCapturedExactly"])
